@@ -390,10 +390,10 @@ class GeminiClient:
             ("token", token or ""),
             ("media type", mime_type),
         ):
-            if ";" in value or any(ord(ch) <= 0x20 or ord(ch) == 0x7F for ch in value):
+            if ";" in value or any(ch in "\t\r\n" for ch in value):
                 raise ValueError(
-                    f"';', whitespace and control characters are not allowed in the "
-                    f"{what} of an upload (';' separates Titan parameters)"
+                    f"';', TAB, CR and LF are not allowed in the {what} of an upload "
+                    "(';' separates Titan parameters)"
                 )
 
         # Build Titan URL with parameters
